@@ -239,10 +239,12 @@ func ReplayJsonEnc(cs *JsonCase, seed int64, limit int) (*run.Finding, int) {
 		var derr error
 		var n datamodel.Node
 		if p := model.Safe(func() {
-			// how the reader delivers the text is not part of the value: from one buffer, one byte per Read, or in two
-			// reads cut at a place that depends on the text
+			// how the reader delivers the text is not part of the value: from one buffer, one byte per Read, in two reads
+			// cut at a place that depends on the text, or with the final data arriving together with io.EOF
 			var r io.Reader = bytes.NewReader(first)
-			switch (len(first) + ii) % 3 {
+			switch (len(first) + ii) % 4 {
+			case 3:
+				r = iotest.DataErrReader(bytes.NewReader(first)) // the final read returns data together with io.EOF
 			case 1:
 				r = iotest.OneByteReader(bytes.NewReader(first))
 			case 2:
